@@ -3,7 +3,7 @@
    e is the ellipsoid's first eccentricity (0 <= e < 1); latitudes strictly inside (-PI/2, PI/2). *)
 From Coq Require Import Reals ZArith List Bool Lra.
 From Coquelicot Require Import Coquelicot.
-From Romea Require Import Num NumR GeodesyModel GeodesyProofs LambertModel LambertProofs.
+From Romea Require Import Num NumR GeodesyModel GeodesyProofs LambertModel LambertProofs LambertContraction.
 From Romea.gen Require Import RepoConstants.
 Local Open Scope R_scope.
 
@@ -99,14 +99,36 @@ Proof.
 Qed.
 Print Assumptions C03_latitude_fixed_point.
 
-(* exit of the loop: the last pass moved the latitude by less than EPSILON <= 1e-11 (read from the source).
-   _partial: the distance of the returned latitude to the true one follows from the contraction bound
-   |g'| <= e^2/(1-e^2), which is not proved here; the oracle measures 1e-11 rad on the implementation. *)
-Theorem C03_latitude_exit_partial : forall fuel L e lat r,
+(* the loop body is a global contraction with factor e^2/(1-e^2) (mean value theorem on its derivative) *)
+Theorem C03_latitude_iteration_contracts : forall L e x y, 0 <= e < 1 ->
+  Rabs (latitude_step ROps L e y - latitude_step ROps L e x) <= e * e / (1 - e * e) * Rabs (y - x).
+Proof. exact latitude_step_lipschitz. Qed.
+Print Assumptions C03_latitude_iteration_contracts.
+
+(* exit of the loop: the last pass moved the latitude by less than EPSILON <= 1e-11 (read from the source) *)
+Theorem C03_latitude_exit : forall fuel L e lat r,
   latitude_iter ROps fuel L e lat = Some r ->
   exists prev, r = latitude_step ROps L e prev /\ Rabs (r - prev) < lambert_eps ROps.
 Proof. exact latitude_iter_exit. Qed.
-Print Assumptions C03_latitude_exit_partial.
+Print Assumptions C03_latitude_exit.
+
+(* inverse map: for e <= 0.1, cone constants of either sign (both hemispheres), |n (lon - lon0)| < PI/2:
+   whenever toWGS84 returns, the longitude is exact and the latitude is within EPSILON/98 <= 1.1e-13 rad.
+   (That the loop returns within the fuel is not part of this statement; the model's None = C++ not returning,
+   which the harness would report as HANG.) *)
+Theorem C03_inverse_exact : forall (pr : projection (T:=R)) e fuel lat lon w,
+  0 <= e <= / 10 -> - PI / 2 < lat < PI / 2 ->
+  p_c pr <> 0 -> p_n pr <> 0 -> - PI / 2 < p_n pr * (lon - p_lon0 pr) < PI / 2 ->
+  toWGS84 ROps fuel pr e (toLambert ROps pr e (mkWgs lat lon)) = Some w ->
+  Rabs (w_lat w - lat) <= lambert_eps ROps / 98 /\ w_lon w = lon.
+Proof.
+  intros pr e fuel lat lon w He Hl Hc Hn Hg H.
+  rewrite (toWGS84_of_toLambert pr e fuel lat lon Hc Hn Hg) in H.
+  destruct (computeLatitude ROps fuel (isolat e lat) e) as [l|] eqn:E; [|discriminate].
+  inversion H; subst w; cbn [w_lat w_lon]. split; [|reflexivity].
+  exact (computeLatitude_accuracy fuel e lat l He Hl E).
+Qed.
+Print Assumptions C03_inverse_exact.
 
 Theorem C03_epsilon_from_source : 0 < lambert_eps ROps <= / 100000000000.
 Proof. exact lambert_eps_bounds. Qed.
